@@ -21,6 +21,7 @@ var verifHarnesses = map[string]func(){
 	"VerifC17_DefaultAndOverride": VerifC17_DefaultAndOverride,
 	"VerifC17_MergedPathsAreJudgedAfterTheMerge": VerifC17_MergedPathsAreJudgedAfterTheMerge,
 	"VerifC17_OpenIDScopeForAnyScopeList":        VerifC17_OpenIDScopeForAnyScopeList,
+	"VerifC17_AtMostOneOIDCFilterPerChain":       VerifC17_AtMostOneOIDCFilterPerChain,
 }
 
 const (
@@ -225,6 +226,48 @@ func VerifC17_OpenIDScopeForAnyScopeList() {
 		vn.Assert("C17/configured-scope-kept:"+string(rune('0'+i)), kept)
 	}
 	vn.Cover("C17/accepted-with-scopes", n > 0)
+}
+
+// VerifC17_AtMostOneOIDCFilterPerChain: chains of up to four filters of any kind (mock, oidc,
+// override) in any order -- the OIDC filters need not be neighbours -- are accepted only with at
+// most one OIDC filter (an override counts). The OIDC parts are fixed valid configurations, so
+// that this question is not drowned in the others.
+func VerifC17_AtMostOneOIDCFilterPerChain() {
+	cfg := &configv1.Config{ListenAddress: "0.0.0.0", ListenPort: 8080, HealthListenPort: 8081, LogLevel: "info", Threads: 1}
+	valid := func(n string) *oidcv1.OIDCConfig {
+		return &oidcv1.OIDCConfig{
+			AuthorizationUri: "https://idp/auth", TokenUri: "https://idp/token", CallbackUri: "https://app/" + n + "/callback",
+			JwksConfig: &oidcv1.OIDCConfig_Jwks{Jwks: "keys"}, ClientId: n, ClientSecretConfig: &oidcv1.OIDCConfig_ClientSecret{ClientSecret: "s"},
+			IdToken: &oidcv1.TokenConfig{Header: "authorization", Preamble: "Bearer"},
+		}
+	}
+	// full OIDC filters and a default configuration exclude each other: either a default with
+	// overrides, or no default and full filters
+	withDefault := vn.Choice("with-default", 2) == 1
+	if withDefault {
+		cfg.DefaultOidcConfig = valid("default")
+	}
+	ch := &configv1.FilterChain{Name: "c"}
+	nf := 1 + vn.Choice("nfilters", 4)
+	wantOIDC := 0
+	for j := 0; j < nf; j++ {
+		n := "f" + string(rune('0'+j))
+		switch {
+		case vn.Choice(n+"-is-oidc", 2) == 0:
+			ch.Filters = append(ch.Filters, &configv1.Filter{Type: &configv1.Filter_Mock{Mock: &mockv1.MockConfig{Allow: true}}})
+		case !withDefault:
+			ch.Filters = append(ch.Filters, &configv1.Filter{Type: &configv1.Filter_Oidc{Oidc: valid(n)}})
+			wantOIDC++
+		default:
+			ch.Filters = append(ch.Filters, &configv1.Filter{Type: &configv1.Filter_OidcOverride{OidcOverride: &oidcv1.OIDCConfig{ClientId: n}}})
+			wantOIDC++
+		}
+	}
+	cfg.Chains = []*configv1.FilterChain{ch}
+	got := kitLoadAndJudge(cfg)
+	vn.Cover("C17/two-oidc-filters-apart", vn.And(wantOIDC >= 2, nf >= 3))
+	vn.Assert("C17/more-than-one-oidc-filter-is-rejected", vn.Or(wantOIDC <= 1, got == nil))
+	vn.Assert("C17/one-oidc-filter-among-mocks-is-accepted", vn.Or(wantOIDC > 1, got != nil))
 }
 
 // VerifC17_DefaultAndOverride: a default configuration merged with one override filter.
